@@ -17,7 +17,7 @@ import z3
 from .spec import (ADT, SpecEnv, SpecTranslator, char_of, char_pred, clip_slice, contains, data_attr,
                    fresh, isinstance_expr, lift, merge, str_cmp, str_eq, truth, val_eq)
 from .values import (HDict, HList, HObj, IntSeq, Unsupported, VArr, VBool, VChar, VCls, VCStr, VData,
-                     VFloat, VFunc, VInt, VNone, VOpaque, VPy, VRef, VSeq, VSlice, VStr, VTuple, Val,
+                     VFloat, VFunc, VInt, VPyInt, VNone, VOpaque, VPy, VRef, VSeq, VSlice, VStr, VTuple, Val,
                      str_len, to_seq)
 
 MAXCP = 0x110000
@@ -225,7 +225,7 @@ class Executor:
         if isinstance(kind, Val):
             return kind
         if kind == "int":
-            return VInt(fresh(name))
+            return VPyInt(fresh(name))
         if kind == "nat":
             v = fresh(name)
             st.assume(v >= 0)
@@ -882,6 +882,10 @@ class Executor:
             return k(s, s.alloc(s.heap[pos[0].oid].copy()))
         if name == "float" and len(pos) == 1:
             v = pos[0]
+            if isinstance(v, VCStr) and v.s.strip().lower() in ("inf", "+inf", "infinity", "+infinity", "-inf", "-infinity", "nan", "+nan", "-nan"):
+                # float() of a literal naming a non-finite value (CPython: case-insensitive, surrounding blanks ignored)
+                t = v.s.strip().lower()
+                return k(s, VFloat(z3.RealVal(0), 1 if "nan" in t else (3 if t.startswith("-") else 2)))
             if isinstance(v, VFloat):
                 return k(s, v)
             if isinstance(v, VBool):
